@@ -13,6 +13,7 @@
 // the parser must accept and return every field that was set - exactly for integer, enumeration, flag, status and
 // text fields (text truncated to the field width), within half a resolution step for scaled fields, NA as NA; a
 // foreign PGN must be refused; the result must not depend on the junk behind the payload.
+// Repeated-record PGNs (sat / wp / pgns / bank ops, see the section further down) are checked by the direct oracle only.
 // Keys: C05:<pair>:<field>:<class of the value the field had>  (zero|one|min|max|neg|big|NA|bit|enum|pattern|flag|rand|
 // empty|full|long), C05:<pair>:guard:<accept|foreign>, C05:<pair>:<field>:junk, C05:<pair>:ub (sanitizer report).
 #include "common.h"
@@ -391,7 +392,180 @@ static void execParse(const lg::Pair &p, const std::vector<std::string> &w, cons
   }
 }
 
+
+// =====================================================================================================================
+// Repeated-record PGNs (outside the layout language: Append... builders, loops) - DIRECT oracle only.
+// ops (all answer `no-layout` on both sides; everything is derived from <seed>, so a line replays exactly):
+//   sat <n> <seed>    PGN 129540: SetN2kPGN129540 + n x AppendN2kPGN129540 (n = 0..19), header parser + per-record parser
+//   wp <kind> <n> <seed>  kind 129285 | 130074: Set + n x Append, decoded by an independent reader of the published format
+//   pgns <n> <seed>   PGN 126464 with n PGNs (n = 0..74), decoded independently
+//   bank <seed>       N2kSetStatusBinaryOnStatus / N2kGetStatusOnBinaryStatus over items 0..29, and through PGN 127501
+// Keys C05:<pgn>:records:<kind>: count (number of records reported), refused (a record that was appended is not
+// returned), value (a field of a record differs), beyond (an index behind the last record is accepted), overflow (the
+// record after the last one that fits is accepted, or its refusal changes the message), append (Append refuses a
+// record although the documented maximum is not reached).
+static std::string rkey(const char *pgn, const char *kind) { return std::string("C05:") + pgn + ":records:" + kind; }
+static long long scode(double v, double res) { return v == NA_D ? (long long)0x7fffffffffffffffLL : llround(v / res); }
+
+static void execSat(const std::vector<std::string> &w) {
+  int n = atoi(w[1].c_str()); Rng r(strtoull(w[2].c_str(), nullptr, 10) * 0x9E3779B97F4A7C15ULL + 7);
+  const int MAXSV = 18;                                   // documented: a fast packet holds at most 18 satellites
+  unsigned char sid = (unsigned char)r.below(253); int mode = (int)r.below(4);
+  tN2kMsg m; SetN2kPGN129540(m, sid, (tN2kRangeResidualMode)mode);
+  std::vector<tSatelliteInfo> sv;
+  for (int i = 0; i < n; i++) {
+    tSatelliteInfo s;
+    s.PRN = (unsigned char)r.below(253);
+    s.Elevation = r.chance(1, 8) ? NA_D : (double)r.range(-15707, 15707) * 1e-4;
+    s.Azimuth = r.chance(1, 8) ? NA_D : (double)r.range(0, 62831) * 1e-4;
+    s.SNR = r.chance(1, 8) ? NA_D : (double)r.range(0, 9900) * 1e-2;
+    s.RangeResiduals = r.chance(1, 8) ? NA_D : (double)r.range(-2000000000LL, 2000000000LL) * 1e-5;
+    s.UsageStatus = (tN2kPRNUsageStatus)r.below(16);
+    tN2kMsg before = m;
+    bool ok = AppendN2kPGN129540(m, s);
+    if (i < MAXSV) {
+      if (!ok) C.fail(rkey("129540", "append"), "satellite %d of %d refused", i + 1, n);
+      else sv.push_back(s);
+    } else {
+      if (ok) C.fail(rkey("129540", "overflow"), "satellite %d accepted (maximum %d)", i + 1, MAXSV);
+      else if (m.DataLen != before.DataLen || memcmp(m.Data, before.Data, before.DataLen))
+        C.fail(rkey("129540", "overflow"), "refusing satellite %d changed the message", i + 1);
+    }
+  }
+  // junk behind the payload
+  for (int i = m.DataLen; i < tN2kMsg::MaxDataLen; i++) m.Data[i] = (unsigned char)r.next();
+  unsigned char psid = 0; tN2kRangeResidualMode pmode = (tN2kRangeResidualMode)0; uint8_t cnt = 0;
+  if (!ParseN2kPGN129540(m, psid, pmode, cnt)) C.fail(rkey("129540", "refused"), "header refused");
+  else {
+    if (psid != sid || (int)pmode != mode) C.fail(rkey("129540", "value"), "header SID %d/%d mode %d/%d", sid, psid, mode, (int)pmode);
+    if (cnt != sv.size()) C.fail(rkey("129540", "count"), "%zu satellites appended, %d reported", sv.size(), cnt);
+  }
+  for (size_t i = 0; i < sv.size(); i++) {
+    tSatelliteInfo g; memset(&g, 0, sizeof g);
+    if (!ParseN2kPGN129540(m, (uint8_t)i, g)) { C.fail(rkey("129540", "refused"), "record %zu of %zu refused", i, sv.size()); continue; }
+    const tSatelliteInfo &s = sv[i];
+    if (g.PRN != s.PRN || g.UsageStatus != s.UsageStatus || scode(g.Elevation, 1e-4) != scode(s.Elevation, 1e-4) ||
+        scode(g.Azimuth, 1e-4) != scode(s.Azimuth, 1e-4) || scode(g.SNR, 1e-2) != scode(s.SNR, 1e-2) ||
+        scode(g.RangeResiduals, 1e-5) != scode(s.RangeResiduals, 1e-5))
+      C.fail(rkey("129540", "value"), "record %zu of %zu: PRN %d/%d usage %d/%d elev %.5f/%.5f az %.5f/%.5f snr %.3f/%.3f rr %.6f/%.6f", i, sv.size(),
+             s.PRN, g.PRN, (int)s.UsageStatus, (int)g.UsageStatus, s.Elevation, g.Elevation, s.Azimuth, g.Azimuth, s.SNR, g.SNR, s.RangeResiduals, g.RangeResiduals);
+    C.count("record_checks");
+  }
+  for (int k : {0, 1, 200}) {
+    size_t i = sv.size() + k; if (i > 255) continue;
+    tSatelliteInfo g; memset(&g, 0, sizeof g);
+    if (ParseN2kPGN129540(m, (uint8_t)i, g)) C.fail(rkey("129540", "beyond"), "record %zu accepted, message holds %zu", i, sv.size());
+    else if (g.PRN != 0xff || g.Elevation != NA_D || g.Azimuth != NA_D || g.SNR != NA_D || g.RangeResiduals != NA_D)
+      C.fail(rkey("129540", "beyond"), "refused record %zu is not reported as not available", i);
+  }
+  tN2kMsg f = m; f.PGN = 129539UL;
+  { tSatelliteInfo g; if (ParseN2kPGN129540(f, 0, g) || ParseN2kPGN129540(f, psid, pmode, cnt)) C.fail("C05:129540:guard:foreign", "parser accepted PGN 129539"); }
+  C.nontrivial("sat/" + std::to_string(n));
+}
+
+// independent reader of the published waypoint-list formats
+struct Rd { const unsigned char *d; int len, i; bool bad;
+  unsigned u(int n) { unsigned v = 0; for (int k = 0; k < n; k++) { if (i >= len) { bad = true; return 0; } v |= (unsigned)d[i++] << (8 * k); } return v; }
+  std::string var(bool nulForEmpty) { unsigned L = u(1), T = u(1); std::string s; if (L < 2 || T != 1) { bad = true; return s; }
+    for (unsigned k = 2; k < L; k++) s += (char)u(1);
+    if (nulForEmpty && s.size() == 1 && s[0] == 0) s.clear();
+    return s; } };
+
+static void execWp(const std::vector<std::string> &w) {
+  bool route = w[1] == "129285"; const char *pg = route ? "129285" : "130074";
+  int n = atoi(w[2].c_str()); Rng r(strtoull(w[3].c_str(), nullptr, 10) * 0x9E3779B97F4A7C15ULL + 11);
+  unsigned start = (unsigned)r.below(65533), db = (unsigned)r.below(65533), rt = (unsigned)r.below(65533);
+  std::string rname = randText(r, (int)r.below(9));
+  tN2kMsg m;
+  if (route) SetN2kPGN129285(m, start, db, rt, (tN2kNavigationDirection)r.below(4), rname.c_str(), (tN2kGenericStatusPair)r.below(4));
+  else SetN2kPGN130074(m, start, rt, db);
+  struct Wp { unsigned id; std::string name; long long lat, lon; };
+  std::vector<Wp> ok;
+  for (int i = 0; i < n; i++) {
+    Wp x; x.id = (unsigned)r.below(65533); x.name = randText(r, (int)r.below(7));
+    x.lat = r.range(-900000000LL, 900000000LL); x.lon = r.range(-1800000000LL, 1800000000LL);
+    tN2kMsg before = m; std::vector<char> nm(x.name.begin(), x.name.end()); nm.push_back(0);
+    bool a = route ? AppendN2kPGN129285(m, x.id, nm.data(), x.lat * 1e-7, x.lon * 1e-7) : AppendN2kPGN130074(m, x.id, nm.data(), x.lat * 1e-7, x.lon * 1e-7);
+    int need = 2 + 2 + (int)std::max<size_t>(x.name.size(), route ? 0 : 1) + 8;
+    if (a) ok.push_back(x);          // (a shorter record may still fit after a longer one was refused)
+    else {
+      if (before.DataLen + need + 24 < tN2kMsg::MaxDataLen) C.fail(rkey(pg, "append"), "record %d refused with %d bytes used", i + 1, before.DataLen);
+      if (m.DataLen != before.DataLen || memcmp(m.Data, before.Data, before.DataLen)) C.fail(rkey(pg, "overflow"), "refusing record %d changed the message", i + 1);
+    }
+  }
+  if (m.DataLen > tN2kMsg::MaxDataLen) { C.fail(rkey(pg, "overflow"), "DataLen %d", m.DataLen); return; }
+  Rd rd = {m.Data, m.DataLen, 0, false};
+  unsigned s0 = rd.u(2), cnt = rd.u(2);
+  if (route) { rd.u(2); rd.u(2); rd.u(1); rd.var(false); rd.u(1); } else { rd.u(2); rd.u(2); rd.u(2); }
+  if (s0 != start) C.fail(rkey(pg, "value"), "start %u/%u", start, s0);
+  if (cnt != ok.size()) C.fail(rkey(pg, "count"), "%zu records appended, count field %u", ok.size(), cnt);
+  for (size_t i = 0; i < ok.size() && !rd.bad; i++) {
+    unsigned id = rd.u(2); std::string nm = rd.var(!route); long long la = (int)rd.u(4), lo = (int)rd.u(4);
+    if (rd.bad) break;
+    if (id != ok[i].id || nm != ok[i].name || la != ok[i].lat || lo != ok[i].lon)
+      C.fail(rkey(pg, "value"), "record %zu: id %u/%u name '%s'/'%s' lat %lld/%lld lon %lld/%lld", i, ok[i].id, id, ok[i].name.c_str(), nm.c_str(), ok[i].lat, la, ok[i].lon, lo);
+    C.count("record_checks");
+  }
+  if (rd.bad) C.fail(rkey(pg, "refused"), "message with %zu records cannot be read back (%d bytes)", ok.size(), m.DataLen);
+  else if (rd.i != m.DataLen) C.fail(rkey(pg, "count"), "%d bytes left behind the last record", m.DataLen - rd.i);
+  C.nontrivial(std::string(pg) + "/" + std::to_string(ok.size()));
+}
+
+static void execPgns(const std::vector<std::string> &w) {
+  int n = std::min(atoi(w[1].c_str()), 74); Rng r(strtoull(w[2].c_str(), nullptr, 10) * 0x9E3779B97F4A7C15ULL + 13);
+  std::vector<unsigned long> l; for (int i = 0; i < n; i++) l.push_back(1 + r.below((1UL << 24) - 1)); l.push_back(0);
+  int tr = (int)r.below(2);
+  tN2kMsg m; SetN2kPGN126464(m, 255, (tN2kPGNList)tr, l.data());
+  if (m.PGN != 126464UL || m.DataLen != 1 + 3 * n) { C.fail(rkey("126464", "count"), "%d PGNs, %d bytes", n, m.DataLen); return; }
+  if (m.Data[0] != tr) C.fail(rkey("126464", "value"), "function code %d/%d", tr, m.Data[0]);
+  for (int i = 0; i < n; i++) {
+    unsigned long v = m.Data[1 + 3 * i] | (m.Data[2 + 3 * i] << 8) | ((unsigned long)m.Data[3 + 3 * i] << 16);
+    if (v != l[i]) C.fail(rkey("126464", "value"), "entry %d: %lu/%lu", i, l[i], v);
+    C.count("record_checks");
+  }
+  C.nontrivial("pgns/" + std::to_string(n));
+}
+
+static void execBank(const std::vector<std::string> &w) {
+  Rng r(strtoull(w[1].c_str(), nullptr, 10) * 0x9E3779B97F4A7C15ULL + 17);
+  tN2kBinaryStatus b; N2kResetBinaryStatus(b);
+  int want[29]; for (int i = 1; i <= 28; i++) want[i] = 3;
+  for (int k = 0; k < 60; k++) {
+    int item = (int)r.below(31), st = (int)r.below(4);          // items 0, 29, 30 do not exist
+    tN2kBinaryStatus before = b;
+    N2kSetStatusBinaryOnStatus(b, (tN2kOnOff)st, (uint8_t)item);
+    if (item >= 1 && item <= 28) want[item] = st;
+    else if (b != before) C.fail(rkey("127501", "overflow"), "setting item %d changed the bank", item);
+  }
+  unsigned char inst = (unsigned char)r.below(253);
+  tN2kMsg m; SetN2kPGN127501(m, inst, b);
+  unsigned char pinst = 0; tN2kBinaryStatus pb = 0;
+  if (!ParseN2kPGN127501(m, pinst, pb)) { C.fail(rkey("127501", "refused"), "parser refused"); return; }
+  if (pinst != inst) C.fail(rkey("127501", "value"), "instance %d/%d", inst, pinst);
+  for (int i = 1; i <= 28; i++) {
+    int g = (int)N2kGetStatusOnBinaryStatus(pb, (uint8_t)i);
+    if (g != want[i]) C.fail(rkey("127501", "value"), "item %d: %d set, %d read", i, want[i], g);
+    C.count("record_checks");
+  }
+  for (int i : {0, 29, 30, 255}) if (N2kGetStatusOnBinaryStatus(pb, (uint8_t)i) != N2kOnOff_Unavailable) C.fail(rkey("127501", "beyond"), "item %d exists", i);
+  C.nontrivial("bank");
+}
+
+static bool execRecords(const std::string &line) {
+  std::vector<std::string> w = split(line);
+  if (w.empty()) return false;
+  bool sat = w[0] == "sat" && w.size() == 3, wp = w[0] == "wp" && w.size() == 4, pg = w[0] == "pgns" && w.size() == 3, bk = w[0] == "bank" && w.size() == 2;
+  if (!(sat || wp || pg || bk)) return false;
+  C.op("%s", line.c_str()); C.cases++;
+  int ub0 = g_ub;
+  if (sat) execSat(w); else if (wp) execWp(w); else if (pg) execPgns(w); else execBank(w);
+  if (g_ub != ub0) C.fail(std::string("C05:") + w[0] + ":ub", "undefined conversion reported by the sanitizer");
+  C.out("no-layout");
+  return true;
+}
+
 static void exec(const std::string &line, const std::vector<const char *> *classes = nullptr) {
+  if (execRecords(line)) return;
   C.op("%s", line.c_str());
   std::vector<std::string> w = split(line);
   const lg::Pair *p = w.size() >= 2 ? pairOf(w[1]) : nullptr;
@@ -468,6 +642,13 @@ int main(int argc, char **argv) {
     }
     C.count("pairs_exercised");
     if (pi < 3) C.sample(std::string("pair ") + p.id + ": " + std::to_string(p.nf) + " fields");
+  }
+  // repeated-record PGNs: EVERY record count 0..max and max+1, in every tier
+  for (int rep = 0; rep < (C.thorough ? 12 : 2); rep++) {
+    for (int n = 0; n <= 19; n++) exec("sat " + std::to_string(n) + " " + std::to_string(r.below(1000000)));
+    for (const char *k : {"129285", "130074"}) for (int n = 0; n <= 24; n++) exec(std::string("wp ") + k + " " + std::to_string(n) + " " + std::to_string(r.below(1000000)));
+    for (int n = 0; n <= 74; n += (rep ? 1 : 1)) exec("pgns " + std::to_string(n) + " " + std::to_string(r.below(1000000)));
+    for (int k = 0; k < 10; k++) exec("bank " + std::to_string(r.below(1000000)));
   }
   C.finish();
   return 0;
